@@ -9,16 +9,65 @@ import (
 // F is a boolean formula tree with the standard semantics of each connective.
 // Op: var | true | false | not | and | or | implies | eq | xor | unique.
 // "unique" holds variable leaves only (exactly one of them is true).
+//
+// Sharing: a node may carry a Tag, and a node {Op: "ref", Name: tag} stands for *the same object* as the
+// tagged node (which comes earlier in depth-first order). Semantically a ref is its target; builders
+// (bfx.Build) hand the very same formula value to both places, which is how a caller reuses a sub-formula.
+// Call Link on the root after decoding a formula from JSON.
 type F struct {
-	Op   string `json:"op"`
-	Name string `json:"name,omitempty"`
-	Kids []*F   `json:"kids,omitempty"`
+	Op     string `json:"op"`
+	Name   string `json:"name,omitempty"`
+	Kids   []*F   `json:"kids,omitempty"`
+	Tag    string `json:"tag,omitempty"`
+	target *F
+}
+
+// Link resolves the refs of the tree rooted at f (idempotent).
+func (f *F) Link() {
+	tags := map[string]*F{}
+	var walk func(g *F)
+	walk = func(g *F) {
+		if g.Op == "ref" {
+			g.target = tags[g.Name]
+			if g.target == nil {
+				panic("oracle.F: dangling ref " + g.Name)
+			}
+			return
+		}
+		for _, k := range g.Kids {
+			walk(k)
+		}
+		if g.Tag != "" { // after its kids: a ref always points to a completed sub-formula
+			tags[g.Tag] = g
+		}
+	}
+	walk(f)
+}
+
+// Ref makes a node standing for the same object as g (which must carry a Tag).
+func Ref(g *F) *F {
+	if g.Tag == "" {
+		panic("oracle.Ref: target has no tag")
+	}
+	return &F{Op: "ref", Name: g.Tag, target: g}
+}
+
+// Deref returns the node a ref stands for (the node itself otherwise).
+func (f *F) Deref() *F {
+	for f.Op == "ref" {
+		if f.target == nil {
+			panic("oracle.F: ref " + f.Name + " not linked (call Link on the root)")
+		}
+		f = f.target
+	}
+	return f
 }
 
 func V(name string) *F { return &F{Op: "var", Name: name} }
 
 // Eval evaluates the formula; and() is true, or() is false, unique() of no variable is false.
 func (f *F) Eval(env map[string]bool) bool {
+	f = f.Deref()
 	switch f.Op {
 	case "var":
 		return env[f.Name]
@@ -65,6 +114,7 @@ func (f *F) Vars() []string {
 	set := map[string]bool{}
 	var walk func(*F)
 	walk = func(g *F) {
+		g = g.Deref()
 		if g.Op == "var" {
 			set[g.Name] = true
 		}
@@ -82,6 +132,9 @@ func (f *F) Vars() []string {
 }
 
 func (f *F) String() string {
+	if f.Op == "ref" {
+		return "@" + f.Name
+	}
 	switch f.Op {
 	case "var":
 		return f.Name
@@ -94,7 +147,11 @@ func (f *F) String() string {
 	for i, k := range f.Kids {
 		parts[i] = k.String()
 	}
-	return fmt.Sprintf("%s(%s)", f.Op, strings.Join(parts, ","))
+	tag := ""
+	if f.Tag != "" {
+		tag = f.Tag + ":"
+	}
+	return fmt.Sprintf("%s%s(%s)", tag, f.Op, strings.Join(parts, ","))
 }
 
 // Size counts nodes.
@@ -128,6 +185,7 @@ func FormulaModels(f *F, names []string) []uint64 {
 
 // Walk visits every node with its polarity: +1 positive, -1 negative, 0 both (under eq/xor).
 func (f *F) Walk(pol int, visit func(g *F, pol int)) {
+	f = f.Deref()
 	visit(f, pol)
 	switch f.Op {
 	case "not":
